@@ -24,6 +24,7 @@ class C26(Prop):
     LEVEL = "proof"
     MAX_WORKERS = 8
     CASE_TIMEOUT = 60
+    SHARD_TIMEOUT = 1500
     COQ_SHARD = 150
     TECHNIQUE = ("Coq proof by induction over executions (lists of scheduling choices) of a coroutine-level "
                  "transition system + vm_compute correspondence against the real manager under a controlled event loop")
@@ -117,9 +118,11 @@ class C26(Prop):
     # ------------------------------------------------------------------ implementation
     def impl_init(self):
         import asyncio
+        import ctypes.util
         import logging
         import types
 
+        ctypes.util.find_library = lambda name: None   # asyncssh probes optional crypto libraries by spawning ld/gcc
         from streamflow.core.deployment import Connector, DeploymentConfig, WrapsConfig
         from streamflow.core.exception import WorkflowDefinitionException, WorkflowExecutionException
         from streamflow.deployment.connector import connector_classes
@@ -294,12 +297,16 @@ class C26(Prop):
 
     def _judge(self, case, obs):
         """(clause, input class, message) or None.  Judged from the property text on the call log alone."""
+        if obs.get("hang") is True and "rc" in obs:
+            return None     # worker killed by the shard watchdog (machine overload): no verdict on this case; a case
+                            # that hangs by itself is stopped by the per-case alarm and reported below
         if "crash" in obs or "hang" in obs or obs.get("overrun"):
             return ("crash", "harness", f"harness-level crash/hang/overrun: {str(obs)[:300]}")
         deps = case["deps"]
         log = obs["log1"] + obs["log2"]
         n1 = len(obs["log1"])
         name, st = {}, {}          # connector -> deployment, state
+        okdep = set()              # connectors whose deploy() has returned successfully
         early = set()              # connectors whose undeploy() was called before their deploy() had returned
         live = ("deploying", "deployed")
         failed_any = any((e[0] == "de" and not e[2]) or (e[0] == "ret" and e[3] in ("Def", "Dep")) for e in log)
@@ -323,6 +330,8 @@ class C26(Prop):
                             f"{st[other[0]]} and not undeployed (log position {pos})")
                 name[c], st[c] = n, "deploying"
             elif k == "de":
+                if e[2]:
+                    okdep.add(e[1])
                 if st[e[1]] == "deploying":
                     st[e[1]] = "deployed" if e[2] else "failed"
                 elif e[2]:
@@ -357,12 +366,12 @@ class C26(Prop):
                     if inf[0] == "n":
                         return ("return-after", lz, f"deploy(d{op[1]}) of request {t} returned but no connector is "
                                                     f"registered (log position {pos})")
-                    if inf[0] == "r" and st.get(inf[1]) != "deployed":
+                    if inf[0] == "r" and inf[1] not in okdep:
                         return ("return-after", lz, f"deploy(d{op[1]}) of request {t} returned while its connector "
                                                     f"{inf[1]} is {st.get(inf[1])} (log position {pos})")
                 if op[0] == "X" and inf[0] == "f":      # a lazy deployment is deployed by its first use
                     c = inf[1]
-                    if c == -1 or st.get(c) != "deployed":
+                    if c == -1 or c not in okdep:
                         return ("return-after", lz, f"use of d{op[1]} by request {t} returned while its connector is "
                                                     f"{'absent' if c == -1 else st.get(c)} (log position {pos})")
         if obs["hang1"] or obs["hang2"]:
@@ -461,4 +470,20 @@ class C26(Prop):
 
 
 PROP = C26()
-PROP.LEVEL_TEXT = ("see design/notes/C26.md")
+PROP.LEVEL_TEXT = (
+    "Coroutine-level transition system of DefaultDeploymentManager (_deploy/_inner_deploy/deploy/undeploy/undeploy_all) "
+    "and FutureConnector in Coq (Deploy/Model.v); an execution is a list of scheduling choices. PARTIAL: the clauses are "
+    "proved for EVERY interleaving of four fixed scenarios only (return_after: deploy;undeploy||deploy||deploy and "
+    "deploy||deploy||undeploy||deploy on one eager deployment; wrap_order+once: deploy then undeploy_all on an eager "
+    "wraps chain of depth 3; all three on two requests racing to deploy the top and the middle of that chain) by a "
+    "verified exhaustive explorer evaluated by the kernel (C26_explore_sound + vm_compute), not for arbitrary "
+    "configurations. once, all_once and fail_wakes are false of the current code: C26_*_refuted carry witness schedules, "
+    "replayed on /repo as known findings; C26_return_after_refuted_prefix is the witness for the code before the fix "
+    "(two fix commits in /repo: ac03fe4, d43ef46). The model is tied to /repo on every run by driving the real manager "
+    "with a one-task-step-at-a-time event loop and requiring the model, fed the same schedule, to reproduce the exact "
+    "connector call log, request outcomes and set of blocked tasks.")
+PROP.LEVEL_NOTE = (
+    "Trusted: Coq kernel + vm_compute; the hand-written model (tied to the code only by the correspondence run); asyncio "
+    "semantics assumed by the model (Event, sleep(0), gather, atomicity between awaits); the controlled event loop and "
+    "fake connectors. Missing for a full proof: an inductive invariant over the frame stacks of all tasks (general "
+    "return_after / wrap_order / once-for-eager); wraps=None (__LOCAL__) is outside the model. No axioms.")
